@@ -80,9 +80,11 @@ pub fn gen_stream_cmds(src: &mut Src) -> Vec<Cmd> {
                 cmds.push(vec![b(if src.chance(4, 5) { "EXEC" } else { "DISCARD" })]);
             }
             8 => { // a value of ~9 KB read back 8-11 times in a row: more than 64 KB of replies pending at once
-                let mut v = vec![b'x'; 9000]; v.extend_from_slice(format!("{}", cmds.len()).as_bytes());
+                // (now and then a 40 KB value read 8-23 times: up to 900 KB of replies pending, beyond any plausible high-water mark)
+                let huge = src.chance(1, 5);
+                let mut v = vec![b'x'; if huge { 40_000 } else { 9000 }]; v.extend_from_slice(format!("{}", cmds.len()).as_bytes());
                 cmds.push(vec![b("SET"), b("big"), v]);
-                for _ in 0..(8 + src.below(4)) { cmds.push(vec![b("GET"), b("big")]); }
+                for _ in 0..(8 + src.below(if huge { 16 } else { 4 })) { cmds.push(vec![b("GET"), b("big")]); }
             }
             3 => cmds.push(vec![b("FOO"), b("a"), b("b")]),
             4 => cmds.push(vec![b("PING")]),
@@ -122,7 +124,7 @@ impl Property for C04 {
     fn components_real(&self) -> Vec<&'static str> { vec!["production::connection_optimized::OptimizedConnectionHandler::run (through hook H1), incl. batch collectors, fast path, try_execute_command, transaction state machine, encode_resp_into", "redis::RespCodec::parse, Command::from_resp_zero_copy", "production::ShardedActorState (ProductionTimeSource behind hook H2) with its shard actors"] }
     fn components_stubbed(&self) -> Vec<&'static str> { vec!["TCP socket -> SimStream (client-chosen read boundaries, optional short writes)", "ACL: default AclManager, metrics: no-op, as in a default server start", "TLS, accept loop, TTL manager task not run; the clock stands still during a run"] }
     fn assumptions(&self) -> Vec<&'static str> { vec!["SPOP is not generated (legitimately random)", "a damaged frame must be answered by at least one error reply after the replies of the earlier commands; what happens to commands sent after it in the same read is not constrained"] }
-    fn required_probes(&self) -> Vec<&'static str> { vec!["split_inside_frame", "partial_tail_frame", "stream_reaches_min_pipeline_buffer", "malformed_frame_sent", "prior_connections_on_shared_pool", "reply_backlog_over_64k"] }
+    fn required_probes(&self) -> Vec<&'static str> { vec!["split_inside_frame", "partial_tail_frame", "stream_reaches_min_pipeline_buffer", "malformed_frame_sent", "prior_connections_on_shared_pool", "reply_backlog_over_64k", "reply_backlog_over_256k"] }
     fn runs(&self, tier: Tier) -> u64 { match tier { Tier::Quick => 40000, Tier::Thorough => 600000 } }
 
     fn derive(&self, tape: &[u64], rep: &RunReport, tier: Tier) -> Vec<Vec<u64>> {
@@ -173,6 +175,7 @@ impl Property for C04 {
         let malformed = src.chance(1, 6);
         let cmds = gen_stream_cmds(src);
         if cmds.iter().any(|c| c.len() == 3 && c[2].len() >= 9000) { rep.probe("reply_backlog_over_64k"); }
+        if cmds.iter().any(|c| c.len() == 3 && c[2].len() >= 40_000) { rep.probe("reply_backlog_over_256k"); }
         let dmg_kind = src.below(6);
         let dmg_at = src.idx(cmds.len() + 1);
         let short_writes = if src.chance(1, 8) { 1 + src.idx(7) } else { 0 };
